@@ -393,9 +393,12 @@ class Input(object):
             inp_type = 'segwit'
         sequence_number = raw.read(4)
 
-        return Input(prev_txid=prev_hash, output_n=output_n, unlocking_script=unlocking_script,
-                     witness_type=inp_type, sequence=sequence_number, index_n=index_n, strict=strict, network=network,
-                     script_type=script_type)
+        inp = Input(prev_txid=prev_hash, output_n=output_n, unlocking_script=unlocking_script,
+                    witness_type=inp_type, sequence=sequence_number, index_n=index_n, strict=strict, network=network,
+                    script_type=script_type)
+        # Keep the unlocking script as found in the raw transaction, also if it is not in the form this library creates
+        inp.unlocking_script = unlocking_script
+        return inp
 
     def update_scripts(self, hash_type=SIGHASH_ALL):
         """
@@ -1014,7 +1017,13 @@ class Transaction(object):
 
                 if coinbase and inputs[n].witness_type == 'legacy':
                     inputs[n].witness_type = 'segwit'
+                witnesses_parsed = list(inputs[n].witnesses)
+                unlocking_script_parsed = inputs[n].unlocking_script
                 inputs[n].update_scripts()
+                # Keep unlocking script and witness stack as found in the raw transaction, also if they have another
+                # form than this library creates
+                inputs[n].witnesses = witnesses_parsed
+                inputs[n].unlocking_script = unlocking_script_parsed
 
         locktime_bytes = rawtx.read(4)[::-1]
         if len(locktime_bytes) != 4 and strict:
